@@ -540,3 +540,122 @@ func ruleDPEmit(c *Ctx, rule string) {
 		}
 	}
 }
+
+// ruleGridPeriod: tubes are spaced tubeOffset diagonals apart (tubeIndex
+// divides by that field), so the recycling tick that retires one tube per
+// period must be re-armed with the same field; any other period lets the
+// tick drift across the tube grid and skips tubes without ending them.
+func ruleGridPeriod(c *Ctx, rule string) {
+	pkg := modPath + "/align/pals/filter"
+	ti := c.fn("align/pals/filter", "(*Filter).tubeIndex")
+	divisor := ""
+	for _, b := range ti.Blocks {
+		for _, ins := range b.Instrs {
+			if bo, ok := ins.(*ssa.BinOp); ok && bo.Op == token.QUO {
+				if u, ok := bo.Y.(*ssa.UnOp); ok && u.Op == token.MUL {
+					if n, ok := fieldOf(u.X, pkg, "Filter"); ok {
+						divisor = n
+					}
+				}
+			}
+		}
+	}
+	if divisor == "" {
+		c.und(rule, "filter.(*Filter).tubeIndex/divisor", ti.Pos(), "tubeIndex does not divide by a Filter field")
+		return
+	}
+	flt := c.fn("align/pals/filter", "(*Filter).Filter")
+	n := 0
+	for _, f := range append([]*ssa.Function{flt}, flt.AnonFuncs...) {
+		for _, b := range f.Blocks {
+			for _, ins := range b.Instrs {
+				st, ok := ins.(*ssa.Store)
+				if !ok {
+					continue
+				}
+				// a store to the captured ticker, on the edge where the ticker was found to be 0
+				rearm := false
+				for _, bf := range branchesAt(b) {
+					if k, ok := constIntVal(bf.cond.Y); ok && k == 0 && effectiveOp(bf, true) == token.EQL {
+						// the compared value derives from a load of the same cell
+						if sameCellValue(bf.cond.X, st.Addr) {
+							rearm = true
+						}
+					}
+				}
+				if !rearm {
+					continue
+				}
+				n++
+				key := fmt.Sprintf("filter.(*Filter).Filter/tick-rearm#%d", n)
+				if loadOfField(st.Val, pkg, "Filter", divisor) {
+					c.ok(rule, key, st.Pos(), "the tick is re-armed with "+divisor+", the spacing tubeIndex divides by")
+				} else {
+					c.bad(rule, key, st.Pos(), "the recycling tick is re-armed with something other than "+divisor+" (the tube spacing used by tubeIndex): the tick drifts across the tube grid, periodically steps over a tube without ending it, and that tube's pending match is emitted under the wrong diagonal or lost")
+				}
+			}
+		}
+	}
+	if n == 0 {
+		c.und(rule, "filter.(*Filter).Filter/tick-rearm", flt.Pos(), "no re-arm of the recycling tick found")
+	}
+}
+
+// sameCellValue: v was computed from a load of the cell addr (directly, or
+// the value just stored into it: `if ticker--; ticker == 0`).
+func sameCellValue(v ssa.Value, addr ssa.Value) bool {
+	for i := 0; i < 4; i++ {
+		switch x := v.(type) {
+		case *ssa.UnOp:
+			if x.Op == token.MUL && x.X == addr {
+				return true
+			}
+			return false
+		case *ssa.BinOp:
+			v = x.X
+		default:
+			return false
+		}
+	}
+	return false
+}
+
+// ruleRunState: every call of Filter.Filter starts from freshly zeroed tube
+// states — the store of a new slice into f.tubes dominates the k-mer scan.
+// Reusing the buffer keeps counts and query intervals of the previous pass
+// (the final flush only clears tubes that reached the threshold), which
+// corrupts the hits of the complement-strand pass.
+func ruleRunState(c *Ctx, rule string) {
+	pkg := modPath + "/align/pals/filter"
+	flt := c.fn("align/pals/filter", "(*Filter).Filter")
+	var scan *ssa.Call
+	var stores []*ssa.Store
+	for _, b := range flt.Blocks {
+		for _, ins := range b.Instrs {
+			if call, ok := ins.(*ssa.Call); ok {
+				if g := call.Call.StaticCallee(); g != nil && g.Name() == "ForEachKmerOf" {
+					scan = call
+				}
+			}
+			if st, ok := ins.(*ssa.Store); ok {
+				if n, ok := fieldOf(st.Addr, pkg, "Filter"); ok && n == "tubes" {
+					if _, isMake := st.Val.(*ssa.MakeSlice); isMake {
+						stores = append(stores, st)
+					}
+				}
+			}
+		}
+	}
+	key := "filter.(*Filter).Filter/tubes-fresh-per-run"
+	if scan == nil {
+		c.und(rule, key, flt.Pos(), "no k-mer scan (ForEachKmerOf) found in Filter")
+		return
+	}
+	for _, st := range stores {
+		if st.Block().Dominates(scan.Block()) && (st.Block() != scan.Block() || instrIndex(st.Block(), st) < instrIndex(scan.Block(), scan)) {
+			c.ok(rule, key, st.Pos(), "f.tubes is assigned a newly made (zeroed) slice on every path before the scan")
+			return
+		}
+	}
+	c.bad(rule, key, scan.Pos(), "some path reaches the k-mer scan without assigning f.tubes a newly made slice: tube counts and query intervals left by the previous Filter call (the other strand) are mistaken for matches of this one, and planted repeats are lost or reported on wrong diagonals")
+}
